@@ -554,12 +554,12 @@ keygen_one(tc_t *t, int le, uint32_t seed, size_t rnd_size, int compress) {
 	if (0 != rc)
 		goto out; /* "If function return error then generate another rnd and recall." */
 	d = tc_get(c.priv, b, le);
-	if (dsz != b || psz != xcap) {
-		vh_fail("keygen-sizes", "priv_key_size=%zu pub_key_size=%zu, want %zu and %zu", dsz, psz, b, xcap);
+	if (d < 1 || d >= t->n) {
+		vh_fail("private-key-out-of-range", "rc=0 with d=%" PRIu64 " (n=%u), pub_key_size=%zu", d, t->n, psz);
 		goto out;
 	}
-	if (d < 1 || d >= t->n) {
-		vh_fail("private-key-out-of-range", "d=%" PRIu64 " n=%u", d, t->n);
+	if (dsz != b || psz != xcap) {
+		vh_fail("keygen-sizes", "priv_key_size=%zu pub_key_size=%zu, want %zu and %zu", dsz, psz, b, xcap);
 		goto out;
 	}
 	if (!decode_out(t, le, compress, c.px, compress ? NULL : c.py, psz, &Q) || !tc_eq(Q, t->kG[d])) {
